@@ -243,6 +243,43 @@ impl Prop for C06 {
             },
         ));
 
+        // (c3) the amount held in a variable; operator words between two money literals -------
+        f.push(Family::new(
+            "variables-and-operator-words",
+            Mode::Full,
+            "'x = M / x to B', 'x = M / x in B', 'x = M / x B', 'x = M / y = x / y into B' for M in [10 usd, 250 eur, 2k try, $5] and B in [eur, try, usd, sek]; and 'M1 <word> M2' / 'M1 <word> n' with the operator words of English (minus, exclude, times, multiply, divide, add, sum, append) where M1 is written '2000 usd', '2k usd', '$2k', '3M eur' or holds a label word behind it ('3000 usd salary minus 1200 eur rent')",
+            move |ch| {
+                if ch.flag() {
+                    let (mt, mv, mc) = *ch.pick(&[("10 usd", 10.0, "usd"), ("250 eur", 250.0, "eur"), ("2k try", 2000.0, "try"), ("$5", 5.0, "usd")]);
+                    let b = *ch.pick(&["eur", "try", "usd", "sek"]);
+                    let want = if mc == b { mv } else { mv * rate(b) / rate(mc) };
+                    let text = match ch.choose(4) {
+                        0 => format!("x = {}\nx to {}", mt, b),
+                        1 => format!("x = {}\nx in {}", mt, b),
+                        2 => format!("x = {}\nx {}", mt, b),
+                        _ => format!("x = {}\ny = x\ny into {}", mt, b),
+                    };
+                    Some(Case::Line(LineCase::new(text, Expect::Value(money(want, b), 1e-9), "variable conversion")))
+                } else {
+                    let (m1, v1, c1) = *ch.pick(&[("2000 usd", 2000.0, "usd"), ("2k usd", 2000.0, "usd"), ("$2k", 2000.0, "usd"), ("3M eur", 3e6, "eur"), ("3000 usd salary", 3000.0, "usd")]);
+                    let (word, op) = *ch.pick(&[("minus", '-'), ("exclude", '-'), ("times", '*'), ("multiply", '*'), ("divide", '/'), ("add", '+'), ("sum", '+'), ("append", '+')]);
+                    match op {
+                        '+' | '-' => {
+                            let (m2, v2, c2) = *ch.pick(&[("500 eur", 500.0, "eur"), ("1200 eur rent", 1200.0, "eur"), ("$100", 100.0, "usd")]);
+                            let v2a = if c1 == c2 { v2 } else { v2 * rate(c1) / rate(c2) };
+                            let want = if op == '+' { v1 + v2a } else { v1 - v2a };
+                            Some(Case::Line(LineCase::new(format!("{} {} {}", m1, word, m2), Expect::Value(money(want, c1), 1e-9), "operator word")))
+                        }
+                        _ => {
+                            let (nt, nv) = *ch.pick(&[("2", 2.0), ("4", 4.0)]);
+                            let want = if op == '*' { v1 * nv } else { v1 / nv };
+                            Some(Case::Line(LineCase::new(format!("{} {} {}", m1, word, nt), Expect::Value(money(want, c1), 1e-9), "operator word")))
+                        }
+                    }
+                }
+            },
+        ));
+
         // (d) rate histories -------------------------------------------------------------
         {
             let depth = tier.pick(2, 3);
